@@ -50,7 +50,7 @@ def gen_scenario(rng, strategy=None, n_gc=None, feasible=True, features=None, ma
     single_gc = strategy in ("flex_window", "schedule")
     if n_gc is None:
         n_gc = 1 if single_gc else rng.choice([1, 1, 2])
-    interval = rng.choice([5, 10, 15, 15, 30, 60])
+    interval = rng.choice([5, 10, 15, 15, 30, 60, 45, 20])
     n_steps = rng.randint(16, max_steps or 56)
     f = features or {}
 
